@@ -86,6 +86,11 @@ def run_case(ctx, q, tables, route, label, mon, check_traces=False):
         if eng_exc is not None and mod_exc is not None and type(eng_exc) is type(mod_exc):
             ctx.count('excluded.definition_raises')
             return
+        if isinstance(eng_exc, EXCLUDED_BOTH):
+            # an arithmetic domain error (decimal context overflow ...) on a row or key the model never needed to
+            # evaluate (the model is lazier than the engine): outside the property, counted
+            ctx.count('excluded.engine_arithmetic_domain_error')
+            return
         if eng_exc is not None:
             kind = monitors.classify_exception(eng_exc)
             ctx.violation(f'c01.engine_raised.{kind}', f'{type(eng_exc).__name__}: {eng_exc} on {case["statement"]}', case)
@@ -243,7 +248,7 @@ def systematic_cases():
         exprs = []
         i = 0
         for a in args:
-            if a == gen.SMALL:
+            if a in (gen.SMALL, gen.DIGITS):
                 types.append(T_INT)
                 exprs.append(ir.col(f'x{i}', T_INT))
                 i += 1
